@@ -2525,3 +2525,233 @@ C07_CDM_LOAD = dict(
                     ("instance.values[:__k] = __v", "instance'", "!cdm_store_vals {state} {k} {v}")],
 )
 ALL += [C07_CDM_SAVE, C07_CDM_LOAD]
+# ---- the command-line wrappers batchie/cli/*.py (vocabulary: Model/Cli.v; proofs: Proofs/C??SourceCli.v) ----
+# `argv` = the parsed arguments as a record of the plain argparse results (get_args() is not translated: it is the
+# primitive that yields the record); `L` = the record of the library functions the wrapper calls (Model/Cli.v), every
+# primitive below is ONE field read / ONE library call / ONE constructor call, standing for the function of that name.
+# `written` = the files written so far, in order (a typed effect per save).
+_CLI = dict(out="SrcCli.v", imports="Model.Cli", pyparams=[], predefine={"written": "[]"}, implicit_return="{written}",
+            ignore=["log_config.configure_logging(args)", "logger.info(__a)", "logger.warning(__a)"])
+_NOSET = "field_of_the_parsed_arguments_is_never_stored {obj} {val}"     # not a Gallina term: a store to args.<x> is refused by Coq
+
+
+def _arg_fields(owner, prefix, table):
+    return {a: (owner, t, "%s_%s {obj}" % (prefix, a), _NOSET) for a, t in table.items()}
+
+
+# argument_parsing.get_prng_from_seed_argument(args): reads args.seed only (any other use of `args` is an unbound read)
+CLI_PRNG = dict(
+    file="src/batchie/cli/argument_parsing.py", func="get_prng_from_seed_argument", out="SrcCli.v", imports="Model.Cli",
+    name="src_get_prng_from_seed_argument", pyparams=["args"], attr_vars={"args.seed": "seed"},
+    params=[("mix", "Z -> Z"), ("seed", "Z")], returns="gen", vars={"better_seed": "Z"},
+    prims=[("numpy.random.SeedSequence(__s).generate_state(1)[0]", "!seedseq_word mix {s}", "Z", {"s": "Z"}),   # ValueError for s < 0
+           ("numpy.random.default_rng(__w)", "Gen {w}", "gen", {"w": "Z"})],
+)
+_HOLDER_HANDLE = ("ThetaHolder(n_thetas=1)", "Handle", "handle")      # only used to reach load_h5 / concat
+
+CLI_CALCULATE_SCORES = dict(
+    _CLI, file="src/batchie/cli/calculate_scores.py", func="main", name="src_cli_calculate_scores",
+    params=[("Scr", "Type"), ("Pl", "Type"), ("Th", "Type"), ("Dm", "Type"), ("Sc", "Type"), ("H", "Type"),
+            ("L", "cs_lib Scr Pl Th Dm Sc H"), ("mix", "Z -> Z"), ("argv", "cs_args")],
+    returns="list (path * H)",
+    vars={"written": "list (path * H)", "args": "cs_args", "screen": "Scr", "scorer": "Sc", "thetas_holder": "handle", "thetas": "Th",
+          "n_plates": "Z", "distance_matrix": "Dm", "result": "H"},
+    fields=_arg_fields("cs_args", "cs", {"data": "path", "thetas": "list path", "distance_matrix": "list path", "n_chunks": "Z",
+                                         "chunk_index": "Z", "batch_plate_ids": "list Z", "output": "path", "progress": "bool"}),
+    prims=[("get_args()", "argv", "cs_args"),
+           ("Screen.load_h5(__p)", "!cs_load_screen L {p}", "Scr", {"p": "path"}),
+           ("args.scorer_cls(**args.scorer_params)", "!cs_mk_scorer L", "Sc"),
+           _HOLDER_HANDLE,
+           ("ChunkedDistanceMatrix.load(__p)", "!cs_load_dist L {p}", "Dm", {"p": "path"}),
+           ("ChunkedDistanceMatrix.concat(__l)", "!cs_concat_dist L {l}", "Dm", {"l": "list Dm"}),
+           ("__h.load_h5(__p)", "!cs_load_thetas L {p}", "Th", {"h": "handle", "p": "path"}),     # through the ThetaHolder instance
+           ("__h.concat(__l)", "!cs_concat_thetas L {l}", "Th", {"h": "handle", "l": "list Th"}),
+           ("sum(__l)", "zsum {l}", "Z", {"l": "list Z"}),
+           ("__s.plates", "cs_plates L {s}", "list Pl", {"s": "Scr"}),
+           ("__p.is_observed", "cs_is_observed L {p}", "bool", {"p": "Pl"}),
+           ("__p.plate_id", "cs_plate_id L {p}", "Z", {"p": "Pl"}),
+           # runs the translated get_prng_from_seed_argument on the record's seed
+           ("get_prng_from_seed_argument(__a)", "!src_get_prng_from_seed_argument mix (cs_seed {a})", "gen", {"a": "cs_args"})],
+    # score_chunk's parameter list with the defaults of its signature (scoring/main.py); WHICH arguments are passed is read from the source
+    kwcalls={"score_chunk": (
+        "!cs_score_chunk L {scorer} {thetas} {screen} {distance_matrix} {rng} {progress_bar} {n_chunks} {chunk_index} {batch_plate_ids}", "H",
+        [("scorer", "Sc", None), ("thetas", "Th", None), ("screen", "Scr", None), ("distance_matrix", "Dm", None), ("rng", "opt gen", "None"),
+         ("progress_bar", "bool", "false"), ("n_chunks", "Z", "1"), ("chunk_index", "Z", "0"), ("batch_plate_ids", "opt list Z", "None")])},
+    typed_effects=[("__r.save_h5(__p)", "written'", "{state} ++ [({p}, {r})]", {"r": "H", "p": "path"})],
+)
+
+CLI_SELECT_NEXT_PLATE = dict(
+    _CLI, file="src/batchie/cli/select_next_plate.py", func="main", name="src_cli_select_next_plate",
+    params=[("Scr", "Type"), ("Pl", "Type"), ("Po", "Type"), ("H", "Type"), ("L", "sn_lib Scr Pl Po H"), ("mix", "Z -> Z"),
+            ("argv", "sn_args")],
+    returns="list (path * Z)",
+    vars={"written": "list (path * Z)", "args": "sn_args", "screen": "Scr", "policy": "opt Po", "rng": "gen", "scores": "H",
+          "next_plate": "opt Pl", "f": "path"},
+    fields=_arg_fields("sn_args", "sn", {"data": "path", "scores": "list path", "policy": "opt cname", "output": "path",
+                                         "batch_plate_id": "list Z"}),
+    prims=[("get_args()", "argv", "sn_args"),
+           ("Screen.load_h5(__p)", "!sn_load_screen L {p}", "Scr", {"p": "path"}),
+           ("args.policy_cls(**args.policy_params)", "!sn_mk_policy L", "Po"),
+           ("get_prng_from_seed_argument(__a)", "!src_get_prng_from_seed_argument mix (sn_seed {a})", "gen", {"a": "sn_args"}),
+           ("ChunkedScoresHolder.load_h5(__p)", "!sn_load_scores L {p}", "H", {"p": "path"}),
+           ("ChunkedScoresHolder.concat(__l)", "!sn_concat_scores L {l}", "H", {"l": "list H"}),
+           ("__p.plate_id", "sn_plate_id L {p}", "Z", {"p": "Pl"})],
+    kwcalls={"select_next_plate": (
+        "!sn_select L {scores} {screen} {policy} {batch_plate_ids} {rng}", "opt Pl",
+        [("scores", "H", None), ("screen", "Scr", None), ("policy", "opt Po", None), ("batch_plate_ids", "opt list Z", "None"),
+         ("rng", "opt gen", "None")])},
+    # a file opened for writing is the path it was opened on; f.write(str(n)) puts the decimal text of the int n there
+    contexts=[("open(__p, 'w')", "{p}", "path", {"p": "path"})],
+    typed_effects=[("f.write(str(__n))", "written'", "{state} ++ [(f', {n})]", {"n": "Z"})],
+)
+
+CLI_TRAIN_MODEL = dict(
+    _CLI, file="src/batchie/cli/train_model.py", func="main", name="src_cli_train_model",
+    attr_vars={"args.model_params": "model_params"},      # the dict of KEY=VALUE model parameters, updated in place
+    params=[("Scr", "Type"), ("Sub", "Type"), ("Sp", "Type"), ("Pa", "Type"), ("Mo", "Type"), ("Th", "Type"),
+            ("L", "tm_lib Scr Sub Sp Pa Mo Th"), ("model_params", "Pa"), ("argv", "tm_args")],
+    returns="list (path * Th)",
+    vars={"written": "list (path * Th)", "args": "tm_args", "data": "Scr", "experiment_space": "Sp", "model": "Mo", "samples_holder": "Th",
+          "observed_subset": "opt Sub", "results": "Th"},
+    fields=_arg_fields("tm_args", "tm", {"data": "path", "output": "path", "n_samples": "Z", "n_burnin": "Z", "thin": "Z", "n_chains": "Z",
+                                         "chain_index": "Z", "seed": "Z", "progress": "bool"}),
+    prims=[("get_args()", "argv", "tm_args"),
+           ("Screen.load_h5(__p)", "!tm_load_screen L {p}", "Scr", {"p": "path"}),
+           ("ExperimentSpace.from_screen(__s)", "!tm_from_screen L {s}", "Sp", {"s": "Scr"}),
+           ("args.model_cls(**__p)", "!tm_construct L {p}", "Mo", {"p": "Pa"}),
+           ("ThetaHolder(n_thetas=__n)", "!tm_new_holder L {n}", "Th", {"n": "Z"}),
+           ("__s.subset_observed()", "tm_subset_observed L {s}", "opt Sub", {"s": "Scr"})],
+    assign_effects=[("model_params[EXPERIMENT_SPACE] = __e", "model_params'", "tm_set_space L {state} {e}")],
+    kwcalls={"sampling.sample": (
+        "!tm_sample L {model} {results} {seed} {n_chains} {chain_index} {n_burnin} {thin} {progress_bar}", "Th",
+        [("model", "Mo", None), ("results", "Th", None), ("seed", "Z", None), ("n_chains", "opt Z", "None"), ("chain_index", "opt Z", "None"),
+         ("n_burnin", "opt Z", "None"), ("thin", "opt Z", "None"), ("progress_bar", "bool", "false")])},
+    typed_effects=[("model.add_observations(__d)", "model'", "!tm_add_observations L {state} {d}", {"d": "Sub"}),
+                   ("__r.save_h5(__p)", "written'", "{state} ++ [({p}, {r})]", {"r": "Th", "p": "path"})],
+)
+
+CLI_REVEAL_PLATE = dict(
+    _CLI, file="src/batchie/cli/reveal_plate.py", func="main", name="src_cli_reveal_plate",
+    params=[("Scr", "Type"), ("L", "rp_lib Scr"), ("argv", "rp_args")],
+    returns="list (path * Scr)",
+    vars={"written": "list (path * Scr)", "args": "rp_args", "screen": "Scr", "advanced_screen": "Scr"},
+    fields=_arg_fields("rp_args", "rp", {"screen": "path", "output": "path", "plate_id": "list Z"}),
+    prims=[("get_args()", "argv", "rp_args"),
+           ("Screen.load_h5(__p)", "!rp_load_screen L {p}", "Scr", {"p": "path"}),
+           ("reveal_plates(__s, __i)", "!rp_reveal L {s} {i}", "Scr", {"s": "Scr", "i": "list Z"})],
+    typed_effects=[("__r.save_h5(__p)", "written'", "{state} ++ [({p}, {r})]", {"r": "Scr", "p": "path"})],
+)
+
+_RNG = ["rng'"]
+CLI_PREPARE = dict(
+    _CLI, file="src/batchie/cli/prepare_retrospective_simulation.py", func="main", name="src_cli_prepare",
+    params=[("Scr", "Type"), ("Pl", "Type"), ("Ig", "Type"), ("Pg", "Type"), ("Ps", "Type"), ("L", "pr_lib Scr Pl Ig Pg Ps"),
+            ("mix", "Z -> Z"), ("argv", "pr_args")],
+    returns="list (path * Scr)",
+    vars={"written": "list (path * Scr)", "args": "pr_args", "screen": "Scr", "filtered_screen": "Scr", "rng": "gen",
+          "initial_plate_generator": "opt Ig", "initialized_screen": "Scr", "plate_generator": "Pg",
+          "initialized_screen_with_generated_plates": "Scr", "random_first_plate": "Pl", "smoothed_screen": "Scr", "plate_smoother": "Ps",
+          "n_plates": "Z", "avg_plate_size": "(Z * Z)", "plate_size_std": "handle", "training_screen": "Scr", "test_screen": "Scr"},
+    fields=_arg_fields("pr_args", "pr", {"data": "path", "training_output": "path", "test_output": "path",
+                                         "initial_plate_generator": "opt cname", "plate_generator": "opt cname", "plate_smoother": "opt cname",
+                                         "holdout_fraction": "(Z * positive)"}),
+    prims=[("get_args()", "argv", "pr_args"),
+           ("Screen.load_h5(__p)", "!pr_load_screen L {p}", "Scr", {"p": "path"}),
+           ("filter_dataset_to_treatments_that_appear_in_at_least_one_combo(__s)", "!pr_filter L {s}", "Scr", {"s": "Scr"}),
+           ("get_prng_from_seed_argument(__a)", "!src_get_prng_from_seed_argument mix (pr_seed {a})", "gen", {"a": "pr_args"}),
+           ("args.initial_plate_generator_cls(**args.initial_plate_generator_params)", "!pr_mk_initial L", "Ig"),
+           ("args.plate_generator_cls(**args.plate_generator_params)", "!pr_mk_generator L", "Pg"),
+           ("args.plate_smoother_cls(**args.plate_smoother_params)", "!pr_mk_smoother L", "Ps"),
+           ("__s.plates", "pr_plates L {s}", "list Pl", {"s": "Scr"}),
+           ("__p.is_observed", "pr_is_observed L {p}", "bool", {"p": "Pl"}),
+           ("__p.plate_id", "pr_plate_id L {p}", "Z", {"p": "Pl"}),
+           ("__p.size", "pr_plate_size L {p}", "Z", {"p": "Pl"}),
+           ("__s.n_plates", "pr_n_plates L {s}", "Z", {"s": "Scr"}),
+           ("__s.size / __n", "!py_truediv (pr_size L {s}) {n}", "(Z * Z)", {"s": "Scr", "n": "Z"}),       # int / int: ZeroDivisionError
+           ("np.std(__l)", "np_std {l}", "handle", {"l": "list Z"})],
+    kwcalls={"mask_screen": ("!pr_mask L {screen}", "Scr", [("screen", "Scr", None)]),
+             "reveal_plates": ("!pr_reveal L {screen} {plate_ids}", "Scr", [("screen", "Scr", None), ("plate_ids", "list Z", None)])},
+    # the calls on the one generator object: each receives the state its predecessor left and leaves the next one
+    state_calls=[
+        ("__g.generate_and_unmask_initial_plate(screen=__s, rng=rng)", _RNG, "pr_initial L {g} {s} rng'", "Scr", {"g": "Ig", "s": "Scr"}),
+        ("__g.generate_plates(screen=__s, rng=rng)", _RNG, "pr_generate L {g} {s} rng'", "Scr", {"g": "Pg", "s": "Scr"}),
+        ("rng.choice(__l)", _RNG, "pr_choice L {l} rng'", "Pl", {"l": "list Pl"}),
+        ("__g.smooth_plates(screen=__s, rng=rng)", _RNG, "pr_smooth L {g} {s} rng'", "Scr", {"g": "Ps", "s": "Scr"}),
+        ("create_plate_balanced_holdout_set_among_masked_plates(screen=__s, fraction=__f, rng=rng)", _RNG,
+         "pr_holdout L {s} {f} rng'", "(Scr * Scr)", {"s": "Scr", "f": "(Z * positive)"})],
+    typed_effects=[("__r.save_h5(__p)", "written'", "{state} ++ [({p}, {r})]", {"r": "Scr", "p": "path"})],
+)
+
+_META_DICT = ("{'n_unique_samples': __a, 'n_unique_treatments': __b, 'size': __c, 'n_plates': __d, 'n_unobserved_plates': __e, "
+              "'n_observed_plates': __f}")
+CLI_EXTRACT_METADATA = dict(
+    _CLI, file="src/batchie/cli/extract_screen_metadata.py", func="main", name="src_cli_extract_screen_metadata",
+    params=[("Scr", "Type"), ("Pl", "Type"), ("L", "em_lib Scr Pl"), ("argv", "em_args")],
+    returns="list (path * meta)",
+    vars={"written": "list (path * meta)", "args": "em_args", "experiment": "Scr", "n_observed_plates": "Z", "n_unobserved_plates": "Z",
+          "plate": "Pl", "result_object": "meta", "f": "path"},
+    fields=_arg_fields("em_args", "em", {"screen": "path", "output": "path"}),
+    prims=[("get_args()", "argv", "em_args"),
+           ("Screen.load_h5(__p)", "!em_load_screen L {p}", "Scr", {"p": "path"}),
+           ("__s.plates", "em_plates L {s}", "list Pl", {"s": "Scr"}),
+           ("__p.is_observed", "em_is_observed L {p}", "bool", {"p": "Pl"}),
+           ("__s.n_unique_samples", "em_n_unique_samples L {s}", "Z", {"s": "Scr"}),
+           ("__s.n_unique_treatments", "em_n_unique_treatments L {s}", "Z", {"s": "Scr"}),
+           ("__s.size", "em_size L {s}", "Z", {"s": "Scr"}),
+           ("__s.n_plates", "em_n_plates L {s}", "Z", {"s": "Scr"}),
+           # the dict literal with exactly these six keys is the record of their values
+           (_META_DICT, "mk_meta {a} {b} {c} {d} {e} {f}", "meta", {"a": "Z", "b": "Z", "c": "Z", "d": "Z", "e": "Z", "f": "Z"})],
+    contexts=[("open(__p, 'w')", "{p}", "path", {"p": "path"})],
+    typed_effects=[("json.dump(__o, f, indent=4)", "written'", "{state} ++ [(f', {o})]", {"o": "meta"})],
+)
+
+CLI_DISTANCE_MATRIX = dict(
+    _CLI, file="src/batchie/cli/calculate_distance_matrix.py", func="main", name="src_cli_calculate_distance_matrix",
+    params=[("Scr", "Type"), ("Th", "Type"), ("Me", "Type"), ("Dm", "Type"), ("L", "cd_lib Scr Th Me Dm"), ("argv", "cd_args")],
+    returns="list (path * Dm)",
+    vars={"written": "list (path * Dm)", "args": "cd_args", "data": "Scr", "thetas_holder": "handle", "thetas": "Th", "distance_metric": "Me",
+          "result": "Dm"},
+    fields=_arg_fields("cd_args", "cd", {"data": "path", "thetas": "list path", "n_chunks": "Z", "chunk_index": "Z", "output": "path",
+                                         "progress": "bool"}),
+    prims=[("get_args()", "argv", "cd_args"),
+           ("Screen.load_h5(__p)", "!cd_load_screen L {p}", "Scr", {"p": "path"}),
+           _HOLDER_HANDLE,
+           ("__h.load_h5(__p)", "!cd_load_thetas L {p}", "Th", {"h": "handle", "p": "path"}),
+           ("__h.concat(__l)", "!cd_concat_thetas L {l}", "Th", {"h": "handle", "l": "list Th"}),
+           ("args.metric_cls(**args.metric_params)", "!cd_mk_metric L", "Me")],
+    kwcalls={"calculate_pairwise_distance_matrix_on_predictions": (
+        "!cd_calculate L {thetas} {distance_metric} {data} {chunk_index} {n_chunks} {progress}", "Dm",
+        [("thetas", "Th", None), ("distance_metric", "Me", None), ("data", "Scr", None), ("chunk_index", "Z", None), ("n_chunks", "Z", None),
+         ("progress", "bool", "false")])},
+    typed_effects=[("__r.save(__p)", "written'", "{state} ++ [({p}, {r})]", {"r": "Dm", "p": "path"})],
+)
+
+CLI_EVALUATE_MODEL = dict(
+    _CLI, file="src/batchie/cli/evaluate_model.py", func="main", name="src_cli_evaluate_model",
+    params=[("Scr", "Type"), ("Th", "Type"), ("Pr", "Type"), ("PrT", "Type"), ("Ob", "Type"), ("Nm", "Type"), ("Ev", "Type"),
+            ("L", "ev_lib Scr Th Pr PrT Ob Nm Ev"), ("argv", "ev_args")],
+    returns="list (path * Ev)",
+    vars={"written": "list (path * Ev)", "args": "ev_args", "screen": "Scr", "theta_holder": "handle", "theta_holders": "list Th",
+          "thetas": "Th", "chain_ids": "list Z", "i": "Z", "t": "Th", "predictions": "PrT", "me": "Ev"},
+    fields=_arg_fields("ev_args", "ev", {"screen": "path", "thetas": "list path", "output": "path"}),
+    prims=[("get_args()", "argv", "ev_args"),
+           ("Screen.load_h5(__p)", "!ev_load_screen L {p}", "Scr", {"p": "path"}),
+           _HOLDER_HANDLE,
+           ("__h.load_h5(__p)", "!ev_load_thetas L {p}", "Th", {"h": "handle", "p": "path"}),
+           ("__h.concat(__l)", "!ev_concat_thetas L {l}", "Th", {"h": "handle", "l": "list Th"}),
+           ("__t.n_thetas", "ev_n_thetas L {t}", "Z", {"t": "Th"}),
+           ("[__i] * __n", "zrepeat {i} {n}", "list Z", {"i": "Z", "n": "Z"}),
+           ("np.array(__l, dtype=int)", "{l}", "list Z", {"l": "list Z"}),        # a list of ints as an int array: the same values
+           ("__m.T", "ev_transpose L {m}", "PrT", {"m": "Pr"}),
+           ("__s.observations", "ev_observations L {s}", "Ob", {"s": "Scr"}),
+           ("__s.sample_names", "ev_sample_names L {s}", "Nm", {"s": "Scr"})],
+    kwcalls={"predict_viability_all": ("!ev_predict_all L {screen} {thetas}", "Pr", [("screen", "Scr", None), ("thetas", "Th", None)]),
+             "ModelEvaluation": ("!ev_mk_eval L {predictions} {observations} {chain_ids} {sample_names}", "Ev",
+                                 [("predictions", "PrT", None), ("observations", "Ob", None), ("chain_ids", "list Z", None),
+                                  ("sample_names", "Nm", None)])},
+    typed_effects=[("chain_ids.extend(__l)", "chain_ids'", "{state} ++ {l}", {"l": "list Z"}),
+                   ("__r.save_h5(__p)", "written'", "{state} ++ [({p}, {r})]", {"r": "Ev", "p": "path"})],
+)
+
+ALL += [CLI_PRNG, CLI_CALCULATE_SCORES, CLI_SELECT_NEXT_PLATE, CLI_TRAIN_MODEL, CLI_REVEAL_PLATE, CLI_PREPARE, CLI_EXTRACT_METADATA,
+        CLI_DISTANCE_MATRIX, CLI_EVALUATE_MODEL]
